@@ -1,7 +1,11 @@
 use crate::engine::{CheckInfo, Ctx};
 
 pub mod c01;
+pub mod c02;
+pub mod c03;
+pub mod c04;
 pub mod c05;
+pub mod c08;
 pub mod c09;
 pub mod c12;
 pub mod c13;
@@ -15,7 +19,11 @@ pub struct Check {
 pub fn all() -> Vec<Check> {
     vec![
         Check { info: &c01::INFO, run: c01::run },
+        Check { info: &c02::INFO, run: c02::run },
+        Check { info: &c03::INFO, run: c03::run },
+        Check { info: &c04::INFO, run: c04::run },
         Check { info: &c05::INFO, run: c05::run },
+        Check { info: &c08::INFO, run: c08::run },
         Check { info: &c09::INFO, run: c09::run },
         Check { info: &c12::INFO, run: c12::run },
         Check { info: &c13::INFO, run: c13::run },
